@@ -8,7 +8,7 @@ PROP = dict(
                "input space is unbounded, the oracle is exact up to rounding.",
     level_note="Trusts libm and the 150-line reference evaluator; programs avoid kinks/poles, magnitudes bounded by 1e3. "
                "atan2(scalar, Evaluation) does not compile in the library (uses x.value() on a scalar) and cannot be exercised.",
-    technique="reference-model monitor (dual numbers) + cross-variant differential over random programs",
+    technique="reference-model monitor (dual numbers) + cross-variant differential over random programs, incl. objects re-used across derivative counts that are read after every assignment",
     rule="random straight-line programs (3..15 operator nodes over 53 operator/function forms (incl. self-aliased compound assignment x op= x), 1..16 variables placed in "
          "random derivative slots) evaluated by Evaluation<double,N> N=1..16, two dynamically sized variants and an "
          "independent dual-number evaluator; a case is non-trivial when it has >= 3 operator nodes and a non-zero "
